@@ -25,6 +25,31 @@ claim("C17", "model_checking",
       "Trusted: TLC, the ndjson export, the Python tree builder. Bound: leaves+mul nodes <= 4 (quick) / 5 (thorough), multipliers 1..3.",
       "5 C17")
 
+ENGINE_NOTE = ("Trusted: TLC, the Json module, the projection harness/project.py (tokens = interned raw bytes; energy ownership by from-scratch "
+               "evaluation with an independent calculator instance, rel. tol. 1e-9), recording subclasses of the shipped moves. Bounded by the seeded "
+               "scenario grammar (2-8 atoms, <= 9 steps x <= 3 cycles per trace); recorded findings truncate a trace when they corrupt it persistently.")
+
+claim("C03", "model_checking",
+      "trace validation: TLC checks every recorded trial of real runs against QMC.tla (Reject/NotAttempted restore the pre-trial state; no pending bookkeeping)",
+      "QMC.tla specifies the engine with tokens for all continuous data; every event (yield, move return, evaluate, end of trial) of hundreds of seeded real simulations of all drivers, with composites, vetoing check_move, pre-selections, constraints, extra arrays and five calculators, is validated by TLC: the state predicted by the spec action must equal the observed state field by field and C03_Restored / C03_NoLeak / C03_Pending are evaluated on every observed end-of-trial state. Bit-for-bit (no tolerance).",
+      ENGINE_NOTE, "5 C03")
+claim("C04", "model_checking",
+      "trace validation against QMC.tla: energy ownership (lastE, lastRes, calcAtoms, calcRes as configurations), one evaluation per trial, calculator usability probe",
+      "Energies are identified with the configuration they are the from-scratch energy of; TLC validates at every event that the reference energy, remembered positions/cell, calculator atoms and cached results are what QMC.tla's Evaluate/Accept/Reject produce, that C04_Own and C04_NoRecompute hold at every yield and end of trial, and that the evaluation counter moves by exactly one per evaluated trial (cache hits on unchanged configurations excepted); a deep-copied calculator is probed on a neighbouring configuration (usable).",
+      ENGINE_NOTE + " Calculator styles: caching (harmonic, table), rebuild (pair), internal per-atom state (EMT, LJ).", "5 C04")
+claim("C05", "model_checking",
+      "trace validation against QMC.tla: labels of every distinct move, particle counter, pending indices, template digest after every grand-canonical trial",
+      "TLC validates GrandCanonical traces (atomic and molecular species, several label-bearing moves, composites built with + and *, the same object repeated, default labels incl. 0 and negatives, pre-selected insertions/deletions) against Accept/LabelsAfter/InsSub/DelSub of QMC.tla: label arrays aligned and equal to the specified ones, nexch = previous + particle_delta, template token unchanged.",
+      ENGINE_NOTE, "5 C05")
+claim("C11", "model_checking",
+      "trace validation against QMC.tla: the move call may change positions only of atoms carrying the chosen non-negative label; composite never repeats a label",
+      "For every recorded move call TLC folds the per-element outcomes (label picked, veto) through DispSub/Fold of QMC.tla: atoms outside the selected labels keep their position tokens, the chosen label is legal (non-negative, present, not displaced before in a composite displacement, equal to the pre-selection), every entitled atom moved for non-degenerate operations, and the move's result equals 'some element succeeded'.",
+      ENGINE_NOTE, "5 C11")
+claim("C12", "model_checking",
+      "trace validation against QMC.tla (FixAtoms atoms keep their position tokens through call/accept/reject/fail); numeric layers for FixCom/FixRot are added by the C12 harness",
+      "TLC evaluates C12_Fixed on every observed end-of-trial state and the AfterCall semantics (atoms in cons never receive a new position token) on every move call of Canonical, HamiltonianCanonical, Isobaric and GrandCanonical traces.",
+      ENGINE_NOTE + " FixCom/FixRot/force-bias clauses: see evidence (numeric predicates).", "5 C12")
+
 NOT_YET = "check not built yet in this round (planned in DESIGN.md section 5); will be claimed once its spec and conformance harness exist"
 
 
